@@ -225,6 +225,31 @@ theorem aspa_existing_iff (s : AspaDefs) (holdsAsn : Nat → Bool) (c : Nat) (u 
         simp only [h3', Bool.not_false, if_true]
         exact ⟨fun _ => ⟨hne, hn2, by simp⟩, fun _ => ⟨_, rfl⟩⟩
 
+/-- **An accepted ASPA update is applied entirely** – when no customer is listed twice in
+`add_or_replace` and none of them is also listed in `remove`: for every customer the
+definition the events leave behind has the providers of the definition the ASPA objects are
+issued from (`apply_update` sorts them, hence "up to order"). -/
+theorem aspa_update_applied_partial (s : AspaDefs) (holdsAsn : Nat → Bool) (u : AspaUpdates)
+    (all : AspaDefs) (evs : List AspaEv)
+    (hnodup : (u.addOrReplace.map (·.customer)).Nodup)
+    (hdisj : ∀ d ∈ u.addOrReplace, d.customer ∉ u.remove)
+    (h : aspaProcessUpdates s holdsAsn u = .ok (all, evs)) :
+    ∀ c, SameProviders ((applyAspaEvs s evs).get? c) (all.get? c) := by
+  unfold aspaProcessUpdates at h
+  cases hf : foldlE aspaRemoveStep (s, []) u.remove with
+  | error e => rw [hf] at h; cases h
+  | ok acc =>
+    rw [hf] at h
+    simp only at h
+    have hbase := (aspaRemoveFold s u.remove [] (s, []) (aspaBase_nil s).symm).2 acc hf
+    simp only [List.nil_append] at hbase
+    have happ := aspaRemoveFold_applied s u.remove (s, []) acc (by simp [applyAspaEvs]) hf
+    exact aspaAddFold_applied s holdsAsn u.remove u.addOrReplace acc (all, evs) []
+      (by simpa using hnodup) hdisj
+      (by intro c; rw [happ]; exact sameProviders_refl _)
+      (by intro c hc _; rw [happ, hbase]; exact aspaBase_get? s u.remove c hc)
+      h
+
 /-- The events of an accepted ASPA update do **not** always produce the definitions the
 objects were issued from: when one update removes a customer and also lists a definition
 for it, `process_updates` computes the event against the definitions *before* the update.
@@ -233,10 +258,16 @@ Witness: `64496 => 1,2` configured, update `{remove: [64496], add_or_replace: [6
 accepted, returned definitions contain `64496 => 1,2`, the events leave nothing.
 (Replayed on the implementation: finding F-C05-3.) -/
 theorem aspa_update_not_applied :
-    ∃ (s : AspaDefs) (holdsAsn : Nat → Bool) (u : AspaUpdates) (all : AspaDefs) (evs : List AspaEv),
+    (∃ (s : AspaDefs) (holdsAsn : Nat → Bool) (u : AspaUpdates) (all : AspaDefs) (evs : List AspaEv),
       aspaProcessUpdates s holdsAsn u = .ok (all, evs) ∧
-      all.has 64496 = true ∧ (applyAspaEvs s evs).has 64496 = false := by
-  refine ⟨[⟨64496, [1, 2]⟩], fun _ => true, ⟨[⟨64496, [1, 2]⟩], [64496]⟩, _, _, rfl, ?_, ?_⟩ <;> decide
+      all.has 64496 = true ∧ (applyAspaEvs s evs).has 64496 = false) ∧
+    -- … and likewise when one customer is listed twice in `add_or_replace`
+    (∃ (s : AspaDefs) (holdsAsn : Nat → Bool) (u : AspaUpdates) (all : AspaDefs) (evs : List AspaEv),
+      aspaProcessUpdates s holdsAsn u = .ok (all, evs) ∧ u.remove = [] ∧
+      (all.get? 64496).map (·.providers) = some [1] ∧
+      ((applyAspaEvs s evs).get? 64496).map (·.providers) = some [1, 2]) := by
+  refine ⟨⟨[⟨64496, [1, 2]⟩], fun _ => true, ⟨[⟨64496, [1, 2]⟩], [64496]⟩, _, _, rfl, ?_, ?_⟩,
+    ⟨[⟨64496, [1]⟩], fun _ => true, ⟨[⟨64496, [1, 2]⟩, ⟨64496, [1]⟩], []⟩, _, _, rfl, rfl, ?_, ?_⟩⟩ <;> decide
 
 /-! ## BGPsec router keys -/
 
@@ -380,5 +411,14 @@ example :
     ∃ r' evs, processUpdates [(p1, some "c"), (p4, none)] (fun _ => true)
         ⟨[⟨p1, some "d"⟩, ⟨p5, some "x"⟩], [p4]⟩ = .ok (r', evs) ∧ evs.length = 4 := by
   exact ⟨_, _, rfl, by decide⟩
+
+/-- The hypotheses of `aspa_update_applied_partial` hold for an update that removes one
+customer, replaces another (providers changed) and adds a third. -/
+example :
+    let s : AspaDefs := [⟨64496, [1, 2]⟩, ⟨64497, [3]⟩]
+    let u : AspaUpdates := ⟨[⟨64497, [4, 3]⟩, ⟨64498, [5]⟩], [64496]⟩
+    (u.addOrReplace.map (·.customer)).Nodup ∧ (∀ d ∈ u.addOrReplace, d.customer ∉ u.remove) ∧
+      ∃ all evs, aspaProcessUpdates s (fun _ => true) u = .ok (all, evs) ∧ evs.length = 3 := by
+  refine ⟨by decide, by decide, _, _, rfl, by decide⟩
 
 end KM.Props.C05
